@@ -339,7 +339,9 @@ func (w *World) plan(m *model, kind string, illegal bool) (Op, builderCall) {
 			actors = []string{w.anyName()}
 		} else {
 			actors = m.names(func(n string, a AccountObs, has bool) bool {
-				return a.Perm == list.AclPermissionsNone && m.pendingOf(n) == ""
+				// an account whose join request is still pending may join through an open invite
+				// (the request is superseded); request_join itself needs an account without one
+				return a.Perm == list.AclPermissionsNone && (anyone || m.pendingOf(n) == "")
 			})
 		}
 		if len(ids) == 0 || len(actors) == 0 {
@@ -466,6 +468,17 @@ func (w *World) plan(m *model, kind string, illegal bool) (Op, builderCall) {
 			}
 			op.Detail += t + "->" + PermName(p) + " "
 			chs = append(chs, list.PermissionChangePayload{Identity: w.byName[t].Pub, Permissions: p})
+		}
+		if kind == "permission_changes" && !illegal && rng.Intn(3) == 0 {
+			// one record that changes the SAME account twice: what counts afterwards (and "at this record")
+			// is the last value. First a writing permission, then reader, or the other way round.
+			t := targets[0]
+			first, second := list.AclPermissionsWriter, list.AclPermissionsReader
+			if rng.Intn(3) == 0 {
+				first, second = second, first
+			}
+			op.Detail = t + "->" + PermName(first) + " " + t + "->" + PermName(second) + " (same account twice)"
+			chs = []list.PermissionChangePayload{{Identity: w.byName[t].Pub, Permissions: first}, {Identity: w.byName[t].Pub, Permissions: second}}
 		}
 		if kind == "permission_change" {
 			return op, func(rb list.AclRecordBuilder) (*consensusproto.RawRecord, []crypto.PrivKey, error) {
